@@ -35,6 +35,7 @@ type variant struct {
 	cancel    bool   // a second thread cancels the caller's context
 	maxQuick  int
 	unknown   uint64 // entry node has no address for this node (dial error)
+	again     []float32 // the caller searches once more with this query before it looks at the first answer
 }
 
 // items[p] = vectors stored in partition p (1-dim, scores interleaved across partitions)
@@ -138,6 +139,10 @@ func build(v variant) *explore.Scenario {
 					res, err = c.Nodes[0].DS.SearchPartitions(ctx, pids, []float32{0}, v.k)
 				} else {
 					res, err = c.Nodes[0].DS.Search(ctx, []float32{0}, v.k)
+					if v.again != nil && err == nil {
+						// an answer belongs to its caller: a later search must not change it
+						c.Nodes[0].DS.Search(ctx, v.again, v.k)
+					}
 				}
 				returned = true
 			})
@@ -188,7 +193,11 @@ func build(v variant) *explore.Scenario {
 				}
 				if !faulty && !v.cancel {
 					for p := 0; p < P; p++ {
-						if n := consulted[string(c.Meta.Partitions[p].Id)]; n != 1 {
+						once := 1
+						if v.again != nil {
+							once = 2 // two searches, each consults every partition once
+						}
+						if n := consulted[string(c.Meta.Partitions[p].Id)]; n != once {
 							return &explore.Violation{Key: "partition-consulted-not-once", Desc: fmt.Sprintf("partition %d consulted %d times", p, n)}
 						}
 					}
@@ -238,6 +247,8 @@ func main() {
 		variant{name: "inner-P1", mode: "inner", nodes: 1, placement: [][]uint64{{1}}, k: 2},
 		variant{name: "inner-P2", mode: "inner", nodes: 1, placement: [][]uint64{{1}, {1}}, k: 3},
 		variant{name: "inner-P3", mode: "inner", nodes: 1, placement: [][]uint64{{1}, {1}, {1}}, k: 4},
+		variant{name: "inner-P3-k-equals-total", mode: "inner", nodes: 1, placement: [][]uint64{{1}, {1}, {1}}, k: 9, maxQuick: 1},
+		variant{name: "inner-P3-k-above-total", mode: "inner", nodes: 1, placement: [][]uint64{{1}, {1}, {1}}, k: 20, maxQuick: 1},
 		variant{name: "inner-P2-cancel", mode: "inner", nodes: 1, placement: [][]uint64{{1}, {1}}, k: 3, cancel: true},
 		variant{name: "outer-P1-local", mode: "outer", nodes: 1, placement: [][]uint64{{1}}, k: 2},
 		variant{name: "outer-P2-two-nodes", mode: "outer", nodes: 2, placement: [][]uint64{{1}, {2}}, k: 3},
@@ -253,6 +264,9 @@ func main() {
 		variant{name: "outer-P2-unknown-address", mode: "outer", nodes: 2, placement: [][]uint64{{1}, {2}}, k: 3, unknown: 2},
 		variant{name: "outer-P2-cancel", mode: "outer", nodes: 2, placement: [][]uint64{{1}, {2}}, k: 3, cancel: true, maxQuick: 1},
 		variant{name: "full-P2-two-nodes", mode: "full", nodes: 2, placement: [][]uint64{{1}, {2}}, k: 3},
+		variant{name: "full-P3-all-on-one-remote-node-k-equals-total", mode: "full", nodes: 2, placement: [][]uint64{{2}, {2}, {2}}, k: 9, maxQuick: 1},
+		variant{name: "full-P3-all-local-k-above-total", mode: "full", nodes: 1, placement: [][]uint64{{1}, {1}, {1}}, k: 20, maxQuick: 1},
+		variant{name: "full-P2-two-searches-in-a-row", mode: "full", nodes: 2, placement: [][]uint64{{1}, {2}}, k: 3, again: []float32{10}, maxQuick: 1},
 		variant{name: "full-P3-R2", mode: "full", nodes: 3, placement: [][]uint64{{1, 2}, {2, 3}, {3, 1}}, k: 4},
 	)
 	var scs []*explore.Scenario
